@@ -14,6 +14,7 @@ import onnx_ir.passes.common as ir_passes_common
 
 import onnxscript.utils.metadata_merger as metadata_merger
 from onnxscript import ir
+from onnxscript._internal import _verif
 from onnxscript._internal.tape_builder import BuilderBase, TapeBuilder
 
 logger = logging.getLogger(__name__)
@@ -306,12 +307,51 @@ class _VersionConverter:
             for attr in node.attributes.values():
                 self.visit_attribute(attr)
             node.version = to_version
+            if _verif.ENABLED:
+                _verif.emit(
+                    "vconv",
+                    "Step",
+                    node=_verif.tok(node, "n"),
+                    root=_verif.tok(root, "g"),
+                    from_version=from_version,
+                    to_version=to_version,
+                    replaced=False,
+                    inserted=[],
+                    old_outs=[],
+                    new_outs=[],
+                    new_versions=[],
+                )
         else:
             for new_node in replacement.new_nodes:
                 # TODO: control-flow
                 new_node.version = to_version
             self._default_metadata_merger.copy_merged_metadata([node], replacement.new_nodes)
+            if _verif.ENABLED:
+                old_outs = [_verif.tok(v, "v") for v in node.outputs]
             self.replace_node(node, replacement, root)
+            if _verif.ENABLED:
+                _verif.emit(
+                    "vconv",
+                    "Step",
+                    node=_verif.tok(node, "n"),
+                    root=_verif.tok(root, "g"),
+                    from_version=from_version,
+                    to_version=to_version,
+                    replaced=True,
+                    inserted=[
+                        {
+                            "id": _verif.tok(n, "n"),
+                            "op": n.op_type,
+                            "domain": n.domain,
+                            "ins": [_verif.tok(v, "v") for v in n.inputs],
+                            "outs": [_verif.tok(v, "v") for v in n.outputs],
+                        }
+                        for n in replacement.new_nodes
+                    ],
+                    old_outs=old_outs,
+                    new_outs=[_verif.tok(v, "v") for v in replacement.new_outputs],
+                    new_versions=[n.version or 0 for n in replacement.new_nodes],
+                )
 
     def visit_graph_or_function(self, graph_or_function: ir.Graph | ir.Function) -> None:
         for node in graph_or_function:
@@ -343,19 +383,48 @@ class _VersionConverter:
                         node.op_type,
                         e,
                     )
+                    if _verif.ENABLED:
+                        _verif.emit(
+                            "vconv",
+                            "StepError",
+                            node=_verif.tok(node, "n"),
+                            root=_verif.tok(graph_or_function, "g"),
+                            from_version=from_version,
+                        )
 
     def visit_model(self, model: ir.Model) -> None:
         self._default_onnx_opset = _get_onnx_opset_version(model)
+        if _verif.ENABLED:
+            _verif.begin(
+                "vconv",
+                model=_verif.snapshot_model(model),
+                versions=_verif.node_versions(model),
+                default_opset=self._default_onnx_opset or 0,
+                target=self._target_version,
+            )
         self.visit_graph_or_function(model.graph)
         for function in model.functions.values():
             self.visit_graph_or_function(function)
             _set_onnx_opset_version(function, self._target_version)
+            if _verif.ENABLED:
+                _verif.emit("vconv", "SetOpset", scope=_verif.tok(function, "g"), version=self._target_version)
         _set_onnx_opset_version(model, self._target_version)
+        if _verif.ENABLED:
+            _verif.emit("vconv", "SetOpset", scope=_verif.tok(model.graph, "g"), version=self._target_version)
         if self._modified:
             # TapeBuilder may create values with names that clash with existing graph
             # values when nodes are inserted via replace_nodes_and_values.
             # NameFixPass ensures all value names are unique before returning.
             ir_passes_common.NameFixPass()(model)
+        if _verif.ENABLED:
+            _verif.end(
+                "vconv",
+                model=_verif.snapshot_model(model),
+                versions=_verif.node_versions(model),
+                function_opsets=[
+                    [_verif.tok(f, "g"), f.opset_imports.get("", 0)] for f in model.functions.values()
+                ],
+            )
 
 
 def convert_version(model: ir.Model, target_version: int) -> None:
